@@ -852,4 +852,41 @@ theorem rust_instantiate_text_id_of_concrete (vars : List VId) (plugs : List Pat
   rw [rust_instantiate_text_is_the_model vars plugs hlen p (RShape_of_concrete p hc)]; exact inst_id_of_concrete _ p hc
 
 
+/-! ## exactness for the generator's functions -/
+
+/-- the same exactness facts for the generator's `apply_esubst` / `apply_ssubst` (pattern.py, translated text tied to
+`Py.esub`/`Py.ssub` by `python_pattern_operations_are_the_model`) -/
+theorem py_esubst_eliminates (x : VId) (plug p : Pat) (hp : plug.eFresh x = true) (hc : concrete p = true) :
+    (Py.esub x plug p).eFresh x = true := by
+  rw [py_esubst_textbook x plug p hc]; exact substE_eliminates x plug hp p hc
+
+theorem py_ssubst_eliminates (X : VId) (plug p : Pat) (hp : plug.sFresh X = true) (hc : concrete p = true) :
+    (Py.ssub X plug p).sFresh X = true := by
+  rw [py_ssubst_textbook X plug p hc]; exact substS_eliminates X plug hp p hc
+
+theorem py_esubst_idempotent (x : VId) (plug p : Pat) (hpc : concrete plug = true) (hp : plug.eFresh x = true)
+    (hc : concrete p = true) : Py.esub x plug (Py.esub x plug p) = Py.esub x plug p := by
+  rw [py_esubst_textbook x plug p hc, py_esubst_textbook x plug _ (substE_concrete x plug hpc p hc)]
+  exact substE_idempotent x plug p hpc hp hc
+
+theorem py_ssubst_idempotent (X : VId) (plug p : Pat) (hpc : concrete plug = true) (hp : plug.sFresh X = true)
+    (hc : concrete p = true) : Py.ssub X plug (Py.ssub X plug p) = Py.ssub X plug p := by
+  rw [py_ssubst_textbook X plug p hc, py_ssubst_textbook X plug _ (substS_concrete X plug hpc p hc)]
+  exact substS_idempotent X plug p hpc hp hc
+
+theorem py_esubst_comm (x y : VId) (hxy : x ≠ y) (a b p : Pat) (hac : concrete a = true) (hbc : concrete b = true)
+    (ha : a.eFresh y = true) (hb : b.eFresh x = true) (hc : concrete p = true) :
+    Py.esub x a (Py.esub y b p) = Py.esub y b (Py.esub x a p) := by
+  rw [py_esubst_textbook y b p hc, py_esubst_textbook x a p hc,
+      py_esubst_textbook x a _ (substE_concrete y b hbc p hc), py_esubst_textbook y b _ (substE_concrete x a hac p hc)]
+  exact substE_comm x y hxy a b hac hbc ha hb p
+
+theorem py_ssubst_comm (X Y : VId) (hxy : X ≠ Y) (a b p : Pat) (hac : concrete a = true) (hbc : concrete b = true)
+    (ha : a.sFresh Y = true) (hb : b.sFresh X = true) (hc : concrete p = true) :
+    Py.ssub X a (Py.ssub Y b p) = Py.ssub Y b (Py.ssub X a p) := by
+  rw [py_ssubst_textbook Y b p hc, py_ssubst_textbook X a p hc,
+      py_ssubst_textbook X a _ (substS_concrete Y b hbc p hc), py_ssubst_textbook Y b _ (substS_concrete X a hac p hc)]
+  exact substS_comm X Y hxy a b hac hbc ha hb p
+
+
 end C11
